@@ -85,8 +85,20 @@ func markerPhase(o *common.Opts, pipelines int) (done, cmds int, cmdNames map[st
 				raw = raw[n:]
 			}
 		}
+		// a third of the pipelines end with a half-close (shutdown of the sending side, as "printf ... | nc" does):
+		// the commands were read, so each of them is still owed its reply before the server closes
+		halfClosed := r.Intn(3) == 0
+		if halfClosed {
+			if tc, ok := c.Conn.(interface{ CloseWrite() error }); ok {
+				_ = tc.CloseWrite()
+				cmdNames["(pipelines ended by half-close)"]++
+			}
+		}
 		for i, cmd := range prog {
 			name := strings.ToUpper(string(cmd[0]))
+			if halfClosed {
+				name += "(half-closed)"
+			}
 			bad := func(why string, got string) {
 				sig := "marker|" + name + "|" + why
 				if !seen[sig] {
@@ -120,6 +132,55 @@ func markerPhase(o *common.Opts, pipelines int) (done, cmds int, cmdNames map[st
 		done++
 		if srv.Exited() {
 			return done, cmds, cmdNames, divs, "server exited (C04 matter): " + srv.CrashLine()
+		}
+	}
+	// short pipelines followed at once by end of input: the last replies race with the connection teardown
+	if srv != nil && !srv.Exited() {
+		r := progRand(o.Seed+79, 0)
+		n := o.Pick(300, 5000)
+		lost := 0
+		firstBad := ""
+		for k := 0; k < n; k++ {
+			c, err := respc.Dial(srv.Addr, 15*time.Second)
+			if err != nil {
+				break
+			}
+			m := 1 + r.Intn(12)
+			var buf bytes.Buffer
+			for i := 0; i < m; i++ {
+				switch r.Intn(3) {
+				case 0:
+					buf.Write(respc.EncodeCommand(respc.Cmd("PING", fmt.Sprintf("e-%d-%d", k, i))))
+				case 1:
+					buf.Write(respc.EncodeCommand(respc.Cmd("SET", fmt.Sprintf("eof:%d", k%7), fmt.Sprint(i))))
+				default:
+					buf.Write(respc.EncodeCommand(respc.Cmd("INCR", "eof:counter")))
+				}
+			}
+			_ = c.SendRaw(buf.Bytes())
+			if tc, ok := c.Conn.(interface{ CloseWrite() error }); ok {
+				_ = tc.CloseWrite()
+			}
+			got := 0
+			for {
+				if _, err := c.RecvTimeout(15 * time.Second); err != nil {
+					break
+				}
+				got++
+			}
+			c.Close()
+			cmds += got
+			if got != m {
+				lost++
+				if firstBad == "" {
+					firstBad = fmt.Sprintf("connection %d: %d commands pipelined and the sending side closed, %d replies received before the server closed", k, m, got)
+				}
+			}
+		}
+		cmdNames["(short pipelines ended by half-close)"] += n
+		if lost > 0 {
+			divs = append(divs, seqrun.Div{Kind: "framing", Cmd: []string{"PING/SET/INCR x m", "<half-close>"}, Want: "one reply per command that was read, then the close", Got: fmt.Sprintf("%d of %d connections lost replies; %s", lost, n, firstBad),
+				Detail: "TCP pipelines ended by a half-close against the real binary", Sig: "marker|replies lost at end of input"})
 		}
 	}
 	// slow reader: replies larger than the socket buffers are left unread for a while; afterwards the
